@@ -423,9 +423,11 @@ class IncludedServiceDeclaration(Attribute):
     service: Service
 
     def __init__(self, service: Service) -> None:
-        declaration_bytes = struct.pack(
-            '<HH2s', service.handle, service.end_group_handle, bytes(service.uuid)
-        )
+        # The service UUID is only present when it is a 16-bit UUID
+        # (see Vol 3, Part G - 3.2 INCLUDE DEFINITION)
+        declaration_bytes = struct.pack('<HH', service.handle, service.end_group_handle)
+        if len(service.uuid.to_pdu_bytes()) == 2:
+            declaration_bytes += service.uuid.to_pdu_bytes()
         super().__init__(
             GATT_INCLUDE_ATTRIBUTE_TYPE, Attribute.READABLE, declaration_bytes
         )
